@@ -1,214 +1,173 @@
-//! Function-entry hook of the sync-point engine (Engine B'). In the instrumented build
-//! (tools/rustc_mc_wrapper.sh: the library crate is compiled with `-Z instrument-mcount`
-//! and inlining disabled) every function of pairing-plus — including the std generics it
-//! instantiates, e.g. `Mutex::lock`, `RwLock::write`, `Once::call_once`, `LocalKey::with`,
-//! `drop_in_place::<MutexGuard<_>>` — calls `mcount` on entry. The harness is not
-//! instrumented. The hook does two things:
-//!   * a thread whose token was revoked while it slept on a lock parks at the very next
-//!     function entry after it wakes up;
-//!   * the entry of a synchronisation function is a scheduling point of the seeded scheduler.
-//! In the ordinary build this module is inert.
+//! Glue between the scheduler and the function-entry hook crate `mchook` (Engine B', DESIGN §3.2b).
+//! In the instrumented build (tools/rustc_mc_wrapper.sh) the library crate AND this harness
+//! crate are compiled with `-Z instrument-mcount` and inlining disabled, so every function of
+//! pairing-plus and every instantiation of its generic functions (which live in this crate:
+//! `mul_assign::<FrRepr>`, `mul_precomp_3::<FrRepr>`, `serialize::<W>`, ... together with the std
+//! generics they call: `Mutex::lock`, `RwLock::read/write`, `Once::call_once`, `LocalKey::with`,
+//! atomics, guard drops) calls `mchook::mcount` on entry. At start-up this module parses the
+//! process's own ELF symbol table and hands `mchook` the address ranges of the synchronisation
+//! functions whose (mangled) name mentions pairing-plus; entries of those are scheduling points.
+//! In the ordinary build everything here is inert.
 
 use crate::tok::Sim;
-use std::cell::Cell;
+use std::sync::atomic::Ordering;
+use std::sync::OnceLock;
 
-thread_local! {
-    static ACTIVE: Cell<bool> = const { Cell::new(false) };
-    static IN_HOOK: Cell<bool> = const { Cell::new(false) };
-    static SIM: Cell<*const Sim> = const { Cell::new(std::ptr::null()) };
-    static ME: Cell<usize> = const { Cell::new(0) };
-    /// function entries left in the window after a synchronisation-function entry during which the
-    /// token holder checks whether one of its unlocks has woken a revoked thread
-    static SETTLE_WINDOW: Cell<u32> = const { Cell::new(0) };
-}
-
-pub fn activate(sim: *const Sim, me: usize) {
-    SIM.with(|s| s.set(sim));
-    ME.with(|m| m.set(me));
-    if cfg!(pp_mcount) {
-        #[cfg(pp_mcount)]
-        imp::table();
-        ACTIVE.with(|a| a.set(true));
-    }
-}
-pub fn deactivate() {
-    ACTIVE.with(|a| a.set(false));
-    SIM.with(|s| s.set(std::ptr::null()));
+pub struct Table {
+    pub ranges: Vec<(usize, usize)>,
+    pub names: Vec<String>,
 }
 
 pub fn instrumented() -> bool {
-    cfg!(pp_mcount)
+    mchook::instrumented()
 }
 
-/// (number of synchronisation functions found in the binary, a few of their names)
-pub fn sync_functions() -> (usize, Vec<String>) {
-    #[cfg(pp_mcount)]
-    {
-        let t = imp::table();
-        return (t.ranges.len(), t.names.iter().take(12).cloned().collect());
-    }
-    #[cfg(not(pp_mcount))]
-    (0, vec![])
+fn rd16(b: &[u8], o: usize) -> usize {
+    u16::from_le_bytes([b[o], b[o + 1]]) as usize
+}
+fn rd32(b: &[u8], o: usize) -> usize {
+    u32::from_le_bytes([b[o], b[o + 1], b[o + 2], b[o + 3]]) as usize
+}
+fn rd64(b: &[u8], o: usize) -> usize {
+    let mut a = [0u8; 8];
+    a.copy_from_slice(&b[o..o + 8]);
+    u64::from_le_bytes(a) as usize
 }
 
-#[cfg(pp_mcount)]
-mod imp {
-    use super::*;
-    use std::sync::atomic::Ordering;
-    use std::sync::OnceLock;
+/// is this (mangled) symbol a synchronisation function working on library types?
+fn is_sync_name(n: &str) -> bool {
+    // path components of std::sync / core::sync / alloc::sync, std::thread (LocalKey, spawn, park,
+    // yield_now), once-cells and lazies; legacy and v0 mangling both keep identifiers in clear
+    const PAT: [&str; 9] = ["4sync", "6thread", "LocalKey", "9once_cell", "OnceCell", "OnceLock", "LazyLock", "LazyCell", "4lazy"];
+    // the harness's own scheduler state never mentions a library type; its per-run shared wNAF
+    // contexts (Mutex<Wnaf<..>>) do, and may be scheduling points like any other lock
+    n.contains("pairing_plus") && PAT.iter().any(|p| n.contains(p))
+}
 
-    pub struct Table {
-        /// sorted, disjoint [start, end) runtime address ranges of synchronisation functions
-        pub ranges: Vec<(usize, usize)>,
-        pub names: Vec<String>,
-    }
-
-    fn rd16(b: &[u8], o: usize) -> usize {
-        u16::from_le_bytes([b[o], b[o + 1]]) as usize
-    }
-    fn rd32(b: &[u8], o: usize) -> usize {
-        u32::from_le_bytes([b[o], b[o + 1], b[o + 2], b[o + 3]]) as usize
-    }
-    fn rd64(b: &[u8], o: usize) -> usize {
-        let mut a = [0u8; 8];
-        a.copy_from_slice(&b[o..o + 8]);
-        u64::from_le_bytes(a) as usize
-    }
-
-    /// is this (mangled) symbol a synchronisation function instantiated in the library?
-    fn is_sync_name(n: &str) -> bool {
-        // path components of std::sync / core::sync / alloc::sync, std::thread (LocalKey, spawn,
-        // park, yield_now), once-cells and lazies; legacy and v0 mangling both keep identifiers
-        const PAT: [&str; 9] = ["4sync", "6thread", "LocalKey", "9once_cell", "OnceCell", "OnceLock", "LazyLock", "LazyCell", "4lazy"];
-        PAT.iter().any(|p| n.contains(p))
-    }
-
-    pub fn table() -> &'static Table {
-        static T: OnceLock<Table> = OnceLock::new();
-        T.get_or_init(|| {
-            let mut t = Table { ranges: vec![], names: vec![] };
-            let exe = match std::fs::read("/proc/self/exe") {
-                Ok(b) => b,
-                Err(_) => return t,
-            };
-            if exe.len() < 64 || &exe[..4] != b"\x7fELF" || exe[4] != 2 {
-                return t;
-            }
-            let e_type = rd16(&exe, 0x10);
-            let mut base = 0usize;
-            if e_type == 3 {
-                // PIE: runtime address = load base + st_value
-                let path = std::fs::read_link("/proc/self/exe").ok().map(|p| p.to_string_lossy().to_string()).unwrap_or_default();
-                if let Ok(maps) = std::fs::read_to_string("/proc/self/maps") {
-                    for l in maps.lines() {
-                        if l.ends_with(&path) {
-                            if let Some(a) = l.split('-').next() {
-                                base = usize::from_str_radix(a, 16).unwrap_or(0);
-                            }
-                            break;
+pub fn table() -> &'static Table {
+    static T: OnceLock<Table> = OnceLock::new();
+    T.get_or_init(|| {
+        let mut t = Table { ranges: vec![], names: vec![] };
+        if !instrumented() {
+            return t;
+        }
+        let exe = match std::fs::read("/proc/self/exe") {
+            Ok(b) => b,
+            Err(_) => return t,
+        };
+        if exe.len() < 64 || &exe[..4] != b"\x7fELF" || exe[4] != 2 {
+            return t;
+        }
+        let e_type = rd16(&exe, 0x10);
+        let mut base = 0usize;
+        if e_type == 3 {
+            // PIE: runtime address = load base + st_value
+            let path = std::fs::read_link("/proc/self/exe").ok().map(|p| p.to_string_lossy().to_string()).unwrap_or_default();
+            if let Ok(maps) = std::fs::read_to_string("/proc/self/maps") {
+                for l in maps.lines() {
+                    if l.ends_with(&path) {
+                        if let Some(a) = l.split('-').next() {
+                            base = usize::from_str_radix(a, 16).unwrap_or(0);
                         }
+                        break;
                     }
                 }
             }
-            let shoff = rd64(&exe, 0x28);
-            let shentsize = rd16(&exe, 0x3a);
-            let shnum = rd16(&exe, 0x3c);
-            for i in 0..shnum {
-                let sh = shoff + i * shentsize;
-                if sh + 64 > exe.len() {
-                    break;
+        }
+        let shoff = rd64(&exe, 0x28);
+        let shentsize = rd16(&exe, 0x3a);
+        let shnum = rd16(&exe, 0x3c);
+        for i in 0..shnum {
+            let sh = shoff + i * shentsize;
+            if sh + 64 > exe.len() {
+                break;
+            }
+            if rd32(&exe, sh + 4) != 2 {
+                continue; // not SHT_SYMTAB
+            }
+            let off = rd64(&exe, sh + 0x18);
+            let size = rd64(&exe, sh + 0x20);
+            let link = rd32(&exe, sh + 0x28);
+            let entsize = rd64(&exe, sh + 0x38).max(24);
+            let strsh = shoff + link * shentsize;
+            let stroff = rd64(&exe, strsh + 0x18);
+            let strsize = rd64(&exe, strsh + 0x20);
+            let mut k = 0;
+            while k + entsize <= size {
+                let s = off + k;
+                k += entsize;
+                let info = exe[s + 4];
+                if info & 0xf != 2 {
+                    continue; // not STT_FUNC
                 }
-                if rd32(&exe, sh + 4) != 2 {
-                    continue; // not SHT_SYMTAB
+                let value = rd64(&exe, s + 8);
+                let sz = rd64(&exe, s + 16);
+                if sz == 0 {
+                    continue;
                 }
-                let off = rd64(&exe, sh + 0x18);
-                let size = rd64(&exe, sh + 0x20);
-                let link = rd32(&exe, sh + 0x28);
-                let entsize = rd64(&exe, sh + 0x38).max(24);
-                let strsh = shoff + link * shentsize;
-                let stroff = rd64(&exe, strsh + 0x18);
-                let strsize = rd64(&exe, strsh + 0x20);
-                let mut k = 0;
-                while k + entsize <= size {
-                    let s = off + k;
-                    k += entsize;
-                    let info = exe[s + 4];
-                    if info & 0xf != 2 {
-                        continue; // not STT_FUNC
-                    }
-                    let value = rd64(&exe, s + 8);
-                    let sz = rd64(&exe, s + 16);
-                    if sz == 0 {
-                        continue;
-                    }
-                    let nm = rd32(&exe, s);
-                    if nm >= strsize {
-                        continue;
-                    }
-                    let start = stroff + nm;
-                    let end = exe[start..].iter().position(|c| *c == 0).map(|p| start + p).unwrap_or(start);
-                    let name = String::from_utf8_lossy(&exe[start..end]).to_string();
-                    // only functions instantiated in the (instrumented) library crate call the hook
-                    let stem = name.split('.').next().unwrap_or("");
-                    if name.contains("pairing_plus") && !stem.ends_with("6pp_sim") && is_sync_name(&name) {
-                        t.ranges.push((base + value, base + value + sz));
-                        t.names.push(name);
-                    }
+                let nm = rd32(&exe, s);
+                if nm >= strsize {
+                    continue;
+                }
+                let start = stroff + nm;
+                let end = exe[start..].iter().position(|c| *c == 0).map(|p| start + p).unwrap_or(start);
+                let name = String::from_utf8_lossy(&exe[start..end]).to_string();
+                if is_sync_name(&name) {
+                    t.ranges.push((base + value, base + value + sz));
+                    t.names.push(name);
                 }
             }
-            let mut idx: Vec<usize> = (0..t.ranges.len()).collect();
-            idx.sort_by_key(|i| t.ranges[*i].0);
-            t.ranges = idx.iter().map(|i| t.ranges[*i]).collect();
-            t.names = idx.iter().map(|i| t.names[*i].clone()).collect();
-            t
-        })
-    }
+        }
+        let mut idx: Vec<usize> = (0..t.ranges.len()).collect();
+        idx.sort_by_key(|i| t.ranges[*i].0);
+        t.ranges = idx.iter().map(|i| t.ranges[*i]).collect();
+        t.names = idx.iter().map(|i| t.names[*i].clone()).collect();
+        t
+    })
+}
 
-    #[inline(always)]
-    fn is_sync_addr(ra: usize) -> bool {
-        let r = &table().ranges;
-        if r.is_empty() {
-            return false;
-        }
-        // last range with start <= ra
-        let i = r.partition_point(|x| x.0 <= ra);
-        i > 0 && ra < r[i - 1].1
-    }
+/// (synchronisation functions on library types: all, instantiated by the library crate itself, a few names)
+pub fn sync_functions() -> (usize, usize, Vec<String>) {
+    let t = table();
+    let in_lib = t.names.iter().filter(|n| !n.split('.').next().unwrap_or("").ends_with("6pp_sim")).count();
+    // list library-side ones first
+    let mut names: Vec<String> = t.names.iter().filter(|n| !n.split('.').next().unwrap_or("").ends_with("6pp_sim")).cloned().collect();
+    names.extend(t.names.iter().filter(|n| n.split('.').next().unwrap_or("").ends_with("6pp_sim")).cloned());
+    (t.ranges.len(), in_lib, names.into_iter().take(12).collect())
+}
 
-    /// The function-entry hook. Called by every instrumented function of the library crate.
-    #[no_mangle]
-    #[inline(never)]
-    pub extern "C" fn mcount() {
-        let ra: usize;
-        unsafe {
-            core::arch::asm!("mov {}, [rbp + 8]", out(reg) ra, options(nostack, readonly, preserves_flags));
-        }
-        if !ACTIVE.with(|a| a.get()) {
-            return;
-        }
-        if IN_HOOK.with(|h| h.replace(true)) {
-            return;
-        }
-        let sim = SIM.with(|s| s.get());
-        if !sim.is_null() {
-            let sim: &Sim = unsafe { &*sim };
-            let me = ME.with(|m| m.get());
-            let sync = is_sync_addr(ra);
-            if sim.revoked[me].load(Ordering::Relaxed) {
-                crate::tok::rejoin(sim, me);
-            } else if sim.outstanding.load(Ordering::Relaxed) > 0 {
-                // an unlock happens inside a synchronisation function; the thread it wakes must be
-                // settled before the token holder goes on: check at the next few function entries
-                let w = SETTLE_WINDOW.with(|c| c.get());
-                if sync || w > 0 {
-                    sim.holder_settle(me);
-                    SETTLE_WINDOW.with(|c| c.set(if sync { 48 } else { w - 1 }));
-                }
-            }
-            if sync {
-                crate::tok::sync_point(sim, me);
-            }
-        }
-        IN_HOOK.with(|h| h.set(false));
+fn cb_rejoin(ctx: *const (), me: usize) -> bool {
+    let sim: &Sim = unsafe { &*(ctx as *const Sim) };
+    if sim.revoked[me].load(Ordering::Relaxed) {
+        crate::tok::rejoin(sim, me);
+        true
+    } else {
+        false
     }
+}
+fn cb_any_revoked(ctx: *const ()) -> bool {
+    let sim: &Sim = unsafe { &*(ctx as *const Sim) };
+    sim.outstanding.load(Ordering::Relaxed) > 0
+}
+fn cb_holder_settle(ctx: *const (), me: usize) {
+    let sim: &Sim = unsafe { &*(ctx as *const Sim) };
+    sim.holder_settle(me);
+}
+fn cb_sync_point(ctx: *const (), me: usize) {
+    let sim: &Sim = unsafe { &*(ctx as *const Sim) };
+    crate::tok::sync_point(sim, me);
+}
+
+pub fn activate(sim: *const Sim, me: usize) {
+    if instrumented() && !mchook::installed() {
+        let t = table();
+        mchook::install(
+            t.ranges.clone(),
+            mchook::Callbacks { rejoin_if_revoked: cb_rejoin, any_revoked: cb_any_revoked, holder_settle: cb_holder_settle, sync_point: cb_sync_point },
+        );
+    }
+    mchook::activate(sim as *const (), me);
+}
+pub fn deactivate() {
+    mchook::deactivate();
 }
